@@ -54,18 +54,20 @@ def pair_kind(rng):
 _WCS = []
 
 
-def _fixed_wcs():
-    """one undistorted celestial WCS (TAN, rotated, non-square pixels) for the conversion-commutation clause."""
+def _fixed_wcs(lat_first=False):
+    """undistorted celestial WCSs (TAN, rotated, non-square pixels) for the conversion-commutation clause:
+    the ordinary one, and one whose FIRST pixel axis is the latitude."""
     if not _WCS:
         from astropy.wcs import WCS
-        w = WCS(naxis=2)
-        w.wcs.ctype = ['RA---TAN', 'DEC--TAN']
-        w.wcs.crval = [83.6, 22.0]
-        w.wcs.crpix = [3.0, -2.0]
-        th = math.radians(27.0)
-        w.wcs.cd = [[-2e-4 * math.cos(th), 2.5e-4 * math.sin(th)], [2e-4 * math.sin(th), 2.5e-4 * math.cos(th)]]
-        _WCS.append(w)
-    return _WCS[0]
+        for ct in (['RA---TAN', 'DEC--TAN'], ['DEC--TAN', 'RA---TAN']):
+            w = WCS(naxis=2)
+            w.wcs.ctype = ct
+            w.wcs.crval = [83.6, 22.0] if ct[0].startswith('RA') else [22.0, 83.6]
+            w.wcs.crpix = [3.0, -2.0]
+            th = math.radians(27.0)
+            w.wcs.cd = [[-2e-4 * math.cos(th), 2.5e-4 * math.sin(th)], [2e-4 * math.sin(th), 2.5e-4 * math.cos(th)]]
+            _WCS.append(w)
+    return _WCS[1 if lat_first else 0]
 
 
 class Check(PropertyCheck):
@@ -108,6 +110,12 @@ class Check(PropertyCheck):
             m = rng.random()
             if m < 0.55:
                 a, b, pm = pair_kind(rng)
+                if rng.random() < 0.12:
+                    # EQUAL operands (a separately built equal region): a ^ a is empty, and an excluded a | a, a & a
+                    # still negates operand and whole - no idempotence shortcut is valid
+                    import copy as _copy
+                    b = _copy.deepcopy(a)
+                    pm = 'equal-operands'
                 d = {'kind': 'compound', 'op': rng.choice(['and', 'or', 'xor']), 'a': a, 'b': b, 'include': rng.choice(G.INCLUDES)}
             elif m < 0.8:
                 d = C02.small_region(rng, compound_depth=rng.randint(2, 3))
@@ -200,7 +208,7 @@ class Check(PropertyCheck):
             opf = {'and': operator.and_, 'or': operator.or_, 'xor': operator.xor}[d['op']]
             viaop = opf(r1, r2)
             out['op_cls'] = type(viaop).__name__
-            out['op_operator'] = viaop.operator.__name__
+            out['op_operator'] = getattr(getattr(viaop, 'operator', None), '__name__', None)
             a1 = np.ravel(r1.contains(pc)); a2 = np.ravel(r2.contains(pc))
             out['operands'] = [[bool(v) for v in a1], [bool(v) for v in a2]]
             out['via_op'] = [bool(v) for v in np.ravel(viaop.contains(pc))]
@@ -240,7 +248,8 @@ class Check(PropertyCheck):
             # (same arithmetic on both sides, so the answers are compared exactly), and converts back likewise
             try:
                 from regions import CompoundSkyRegion
-                w = _fixed_wcs()
+                import zlib
+                w = _fixed_wcs(zlib.crc32(repr(case['pts']).encode()) % 3 == 0)
                 sk = reg.to_sky(w)
                 sk2 = CompoundSkyRegion(r1.to_sky(w), r2.to_sky(w), reg.operator, reg.meta, reg.visual)
                 sc = pc.to_sky(w)
@@ -249,6 +258,11 @@ class Check(PropertyCheck):
                 out['sky_meta_same'] = bool(sk.meta == reg.meta and sk.visual == reg.visual)
                 out['sky_a'] = [bool(v) for v in np.ravel(sk.contains(sc, w))]
                 out['sky_b'] = [bool(v) for v in np.ravel(sk2.contains(sc, w))]
+                # the sky compound's own answers are the operator applied to its operands' answers (include flag on top)
+                vo = np.ravel(reg.operator(sk.region1.contains(sc, w), sk.region2.contains(sc, w)))
+                if not reg.meta.get('include', True):
+                    vo = np.logical_not(vo)
+                out['sky_via_op'] = [bool(v) for v in vo]
                 bk = sk.to_pixel(w)
                 bk2 = CompoundPixelRegion(sk2.region1.to_pixel(w), sk2.region2.to_pixel(w), reg.operator, reg.meta, reg.visual)
                 out['back_cls'] = type(bk).__name__
@@ -373,6 +387,9 @@ class Check(PropertyCheck):
                     break
             if real['rot_cls'] != 'CompoundPixelRegion' or real['rot_operator'] != real['op_operator'] or not real['rot_meta_same']:
                 bad('rotate_changes_compound', '')
+            if 'sky_via_op' in real and real['sky_a'] != real['sky_via_op']:
+                i = [k for k in range(len(real['sky_a'])) if real['sky_a'][k] != real['sky_via_op'][k]][0]
+                bad('sky_compound_not_operator_of_operands', f'point {case["pts"][i]}: sky compound {real["sky_a"][i]}, operator of its operands\' answers {real["sky_via_op"][i]}')
             if 'sky_a' in real:
                 if real['sky_a'] != real['sky_b']:
                     i = [k for k in range(len(real['sky_a'])) if real['sky_a'][k] != real['sky_b'][k]][0]
